@@ -745,3 +745,41 @@ def returned_value(fi, skip=()):
         if lv is not None:
             return lv
     return v
+
+
+def const_index_instances(r, repo, funcs, skip=(), what='a shorter value raises IndexError', only=None):
+    """GUARD rule instances: every `x[k]` (constant k, x a parameter or self) in `funcs` is dominated by tests that make
+    len(x) > k on every path - decided by the guard algebra over the path condition (escape.implied_at), with a bare
+    sequence name in a boolean position read as len(x) > 0.  A counter-cell found by the algebra is a fact about the
+    code as it stands: the instance is reported at any structural distance."""
+    from .escape import implied_at
+    n = 0
+    for f in funcs:
+        for x in walk_no_nested(f.node):
+            if not (isinstance(x, ast.Subscript) and isinstance(x.ctx, ast.Load) and isinstance(x.value, ast.Name) and x.value.id in f.params):
+                continue
+            if x.value.id in skip or (only is not None and x.value.id not in only):
+                continue
+            sl = x.slice
+            k = None
+            if isinstance(sl, ast.Constant) and isinstance(sl.value, int) and not isinstance(sl.value, bool):
+                k = sl.value
+            elif isinstance(sl, ast.UnaryOp) and isinstance(sl.op, ast.USub) and isinstance(sl.operand, ast.Constant) and isinstance(sl.operand.value, int):
+                k = -sl.operand.value
+            if k is None:
+                continue
+            n += 1
+            need = k + 1 if k >= 0 else -k
+            key = '%s:%s' % (f.qualname.replace('bitcoin.core.', '').replace('bitcoin.', ''), norm(x))
+            try:
+                v = implied_at(repo, f, x, 'len(%s) >= %d' % (x.value.id, need), truthy_len={x.value.id})
+            except Exception:  # the guard algebra does not model a test on this path
+                v = None
+            if v is True:
+                r.ok(key, site_of(f, x), 'len(%s) >= %d on every path to it' % (x.value.id, need))
+            elif v is False:
+                r.violated(key, site_of(f, x), '`%s` in %s is reached with len(%s) < %d possible (the tests before it do not exclude it): %s'
+                           % (norm(x), f.qualname, x.value.id, need, what), sure=True)
+            else:
+                r.undecided(key, site_of(f, x), 'whether `%s` is guarded is not decided by the guard algebra' % norm(x))
+    return n
